@@ -7,8 +7,12 @@ SPECS["C04"] = ("""property C04: stored events read back byte-identical, forever
    deletions, vanish, extra-table writes, reopen); offsets returned by successful stores are fresh,
    8-aligned and strictly increasing, hence pairwise distinct.  By-id lookup: the id index invariant
    (DbIdInv.v, induction over all concrete histories) - every id entry points at a logged event with that id.
-   The byte level (marker, padding, growth) is decided by the correspondence run in both profiles.""",
-  DBIMP + "\nFrom Pocket Require Import DbIdInv.", [
+   BYTE LEVEL (LogBytes.v: the content of the file event.map - end marker, padding, growth by CHUNK with
+   the remembered length, copy beyond the marker, marker update; LogBytesProofs.v): the byte-level store
+   REFINES the object-level log for every CHUNK > 0 that is a multiple of 8 (2048 debug, 4 MiB release):
+   same offsets, same end marker, es_get returns the stored encoding byte for byte, after any number of
+   further stores and growth steps; lifted to every history of the store model (bytes_refine_history).""",
+  DBIMP + "\nFrom Pocket Require Import DbIdInv LogBytes LogBytesProofs.", [
   ("C04_readback_forever",
    "forall s off e ops, get_event_by_offset s off = Ok e -> get_event_by_offset (c_run ops s) off = Ok e",
    "readback_forever", "for every continuation [ops]: store / remove / vanish / xput / reopen in any order"),
@@ -25,7 +29,18 @@ SPECS["C04"] = ("""property C04: stored events read back byte-identical, forever
   ("C04_stored_event_found_by_id",
    "forall ops names e s' off, let s := c_run ops (db_init names) in\n    store_event s e = (s', Ok off) -> is_ephemeral (e_kind e) = false -> e_kind e <> 5 ->\n    get_event_by_id s' (e_id e) = Ok (Some e) /\\ has_event s' (e_id e) = true",
    "stored_event_found_by_id", "after any history; deletion requests (which may name themselves) are covered by the correspondence run"),
+  ("C04_bytes_store_refines",
+   "forall chunk m lg E e, 0 < chunk -> chunk mod 8 = 0 -> R m lg E -> wf_aevent e -> fits_event e ->\n    len (file m) + event_size e + chunk < B64 ->\n    exists m', es_store chunk m (enc_event e) = Ok (m', align8 E)\n      /\\ R m' ((align8 E, e) :: lg) (align8 E + event_size e)\n      /\\ len (file m) <= len (file m') <= len (file m) + event_size e + chunk",
+   "es_store_refines", "byte-level store_event (padding, the retry loop with set_len/remap, copy, marker) = object-level log_append: offset align8 E, new end, every earlier event still in place; R is the refinement relation (file = marker ++ used ++ free)"),
+  ("C04_bytes_readback_forever",
+   "forall chunk m lg E es off x, 0 < chunk -> chunk mod 8 = 0 -> R m lg E ->\n    Forall (fun e => wf_aevent e /\\ fits_event e) es -> len (file m) + total_size chunk es < B64 ->\n    In (off, x) lg -> off < E ->\n    exists m', stores chunk m es = Some m' /\\ es_get m' off = Ok (enc_event x) /\\ es_get m off = Ok (enc_event x)",
+   "readback_forever_bytes", "the BYTES read at an offset are the stored encoding, before and after any list of further stores (any number of growth steps in between)"),
+  ("C04_bytes_refine_every_history",
+   "forall chunk names ops, 8 <= chunk -> chunk mod 8 = 0 ->\n    Forall wfe (ops_events ops) -> chunk + total_size chunk (ops_events ops) < B64 ->\n    let s := c_run ops (db_init names) in\n    exists m, bytes_of_log chunk (log s) = Some m /\\ Rdb m s\n      /\\ (forall off e, get_event_by_offset s off = Ok e -> es_get m off = Ok (enc_event e))\n      /\\ es_end m = log_end s /\\ es_open chunk (file m) = m",
+   "bytes_refine_history", "every history of the concrete store model: the file its appends produce exists (no append ever fails for lack of room or alignment), refines the log, reads back byte for byte, and reopening it is the identity. bytes_of_log is the function the correspondence check runs against the real file"),
   ], """(* non-vacuity: a history crossing several stores *)
+Check demo_growth.
+Check demo_R : R (es_open 2048 []) [] HEADER.
 Example C04_example :
   let e := mkE (repeat 1 32) (repeat 2 32) (repeat 3 64) 1 5 [] [7] in
   let e2 := mkE (repeat 9 32) (repeat 2 32) (repeat 3 64) 1 6 [] [7;7;7] in
@@ -307,8 +322,11 @@ SPECS["C16"] = ("""property C16: reopen and rebuild preserve everything observab
    answer identically by the C05 exactness theorem (both states satisfy the invariants and return the
    same event for every id); the per-run check compares the full observation dump before vs after on the
    implementation and on the model, at every position.""",
-  DBIMP + "\nFrom Pocket Require Import DbIdInv DbIndexInv DbRebuild DbNaddr.", [
+  DBIMP + "\nFrom Pocket Require Import DbIdInv DbIndexInv DbRebuild DbNaddr LogBytes LogBytesProofs.", [
   ("C16_reopen_identity", "forall s, reopen s = s", "reopen_identity", ""),
+  ("C16_reopen_identity_bytes",
+   "forall chunk m lg E, R m lg E -> es_open chunk (file m) = m",
+   "es_open_id", "byte level (LogBytes.v): EventStore::new on the file of any store in the refinement relation R (marker >= 8, remembered length = file length) changes no byte and re-derives the same remembered length, whatever CHUNK is"),
   ("C16_rebuild_backup_partial",
    "forall s s', rebuild s = Ok s' -> bak s' = Some (log s, committed s) /\\ t_extra (committed s') = t_extra (committed s)",
    "rebuild_leaves_backup", ""),
@@ -723,9 +741,14 @@ SPECS["C13"] = ("""property C13: killing the process at any instant leaves a con
    before-or-after; every state on the way through a vanish is reached by whole removals over the same
    log; every interruption of store creation recovers to the empty store with the marker after the
    header.  Subsequent operations behave as on a never-interrupted store because every other theorem
-   assumes only these invariants.  PARTIAL for what a Gallina model cannot exhibit: LMDB's own commit
+   assumes only these invariants.  BYTE LEVEL (LogBytes.v): the file a kill leaves inside store_event -
+   after the padding, after ANY number of growth steps, with ANY prefix of the event copied beyond the
+   marker (the copy is not atomic) - reopens to a store that holds exactly the events it held, at their
+   offsets, byte for byte: the object-level crash state pad_only s; an interrupted creation of any length
+   (file shorter than the marker, or sized with a marker below 8) recovers to the empty store.
+   PARTIAL for what a Gallina model cannot exhibit: LMDB's own commit
    atomicity and lock recovery, the page cache keeping dirty shared pages of a killed process.""",
-  "From Pocket Require Import Db DbProofs Crash CrashProofs.", [
+  "From Pocket Require Import Db DbProofs Crash CrashProofs LogBytes LogBytesProofs.", [
   ("C13_store_crash_atomic",
    "forall s e r, log_inv s -> In r (crash_states_store s e) ->\n    (committed r = committed s \\/ committed r = committed (fst (store_event s e))) /\\\n    log_extends s r /\\ log_inv r /\\ log_end r <= log_end (fst (store_event s e))",
    "crash_store_atomic", "every kill point of the write path: before/after padding, mid-copy, before/after the marker update, growth, before/after commit"),
@@ -733,6 +756,21 @@ SPECS["C13"] = ("""property C13: killing the process at any instant leaves a con
   ("C13_vanish_crash_prefix", "forall ids s r, In r (remove_events_trace s ids) -> log r = log s /\\ log_end r = log_end s", "remove_events_trace_log", "a subset of the targets may be gone, nothing else"),
   ("C13_create_crash_recovers", "forall names c, recover_create names c = db_init names", "crash_create_recovers", "incl. the file sized but its marker never written"),
   ("C13_log_inv_reachable", "forall ops s, log_extends s (c_run ops s) /\\ (log_inv s -> log_inv (c_run ops s))", "c_run_log", "the invariant the recovered store satisfies is preserved by all later operations"),
+  ("C13_torn_store_recovers_bytes",
+   "forall chunk m lg E b g k t, 0 < chunk -> chunk mod 8 = 0 -> R m lg E ->\n    len (file m) + N.of_nat g * chunk < B64 ->\n    torn_file chunk m b g k = Some t ->\n    align8 E + len (take k b) <= len (file m) + N.of_nat g * chunk ->\n    R (es_open chunk t) lg (align8 E)\n    /\\ forall off x, In (off, x) lg -> off < E -> es_get (es_open chunk t) off = Ok (enc_event x)",
+   "torn_store_recovers", "t = the file after padding, g growth steps and k bytes of the event copied beyond the marker, for every g and k (room for the k bytes is what the append checked)"),
+  ("C13_torn_store_is_pad_only",
+   "forall chunk m s b g k t, 0 < chunk -> chunk mod 8 = 0 -> Rdb m s ->\n    len (file m) + N.of_nat g * chunk < B64 -> torn_file chunk m b g k = Some t ->\n    align8 (log_end s) + len (take k b) <= len (file m) + N.of_nat g * chunk ->\n    Rdb (es_open chunk t) (pad_only s)",
+   "torn_store_is_pad_only", "ties the byte level to the object-level crash states of Crash.v"),
+  ("C13_crash_files_recover",
+   "forall chunk m lg E e t, 0 < chunk -> chunk mod 8 = 0 -> R m lg E -> wf_aevent e -> fits_event e ->\n    len (file m) + event_size e + chunk < B64 ->\n    In t (crash_files chunk m (enc_event e)) ->\n    R (es_open chunk t) lg E \\/ R (es_open chunk t) lg (align8 E)\n    \\/ R (es_open chunk t) ((align8 E, e) :: lg) (align8 E + event_size e)",
+   "crash_files_recover", "crash_files is the list of files the correspondence check compares the killed process's file with (one per hook point of the write path: untouched, padded, after each growth step, half copied, fully copied, marker moved): each reopens to the store before, the padded store, or the store after the append"),
+  ("C13_create_crash_recovers_bytes",
+   "forall chunk, 8 <= chunk ->\n    es_open chunk (zeros chunk) = es_open chunk []\n    /\\ es_open chunk (file (es_open chunk [])) = es_open chunk []",
+   "create_crash_recovers", "killed after set_len but before the marker was written / after it: the same fresh map"),
+  ("C13_interrupted_creation_any_length",
+   "forall chunk f, 8 <= chunk -> chunk mod 8 = 0 -> chunk < B64 ->\n    len f < 8 \\/ get_end f < 8 -> R (es_open chunk f) [] HEADER",
+   "es_open_interrupted", "the repair f32ffdc: a file of ANY length whose marker is below the header is treated as new"),
   ], "")
 
 SPECS["C15"] = ("""property C15: event references stay valid and unchanged while the store lives.
